@@ -13,8 +13,19 @@ namespace Knut.GoSem.Strings
 @[simp] def RuneCount (s : String) : Int := (s.length : Int)
 /-- `strings.Repeat(s, n)` (panics for negative `n` in Go: callers in the subset pass lengths) -/
 def Repeat (s : String) (n : Int) : String := String.join (List.replicate n.toNat s)
-/-- `strings.ReplaceAll(s, old, new)` -/
-def ReplaceAll (s old new : String) : String := s.replace old new
+/-- the characters of `strings.ReplaceAll`: left to right, non-overlapping; `skip` characters of a matched occurrence are
+still to be dropped -/
+def replaceChars (old new : List Char) : List Char → Nat → List Char
+  | [], _ => []
+  | _ :: rest, skip + 1 => replaceChars old new rest skip
+  | c :: rest, 0 =>
+    if old.isPrefixOf (c :: rest) then new ++ replaceChars old new rest (old.length - 1)
+    else c :: replaceChars old new rest 0
+
+/-- `strings.ReplaceAll(s, old, new)` on valid UTF-8; an empty `old` matches before every character and at the end -/
+def ReplaceAll (s old new : String) : String :=
+  if old.isEmpty then String.ofList (new.toList ++ s.toList.flatMap (fun c => c :: new.toList))
+  else String.ofList (replaceChars old.toList new.toList s.toList 0)
 /-- `%d` / `strconv.Itoa` -/
 @[simp] def itoa (n : Int) : String := toString n
 
